@@ -1,5 +1,6 @@
 pub mod c15;
 pub mod c16;
+pub mod c17;
 pub mod c19;
 pub mod c20;
 pub mod corridor;
@@ -31,6 +32,7 @@ pub fn registry() -> Vec<&'static dyn Property> {
         &train_props::C14,
         &c15::C15,
         &c16::C16,
+        &c17::C17,
         &c19::C19,
         &c20::C20,
     ]
